@@ -24,6 +24,7 @@ CONSTANTS Family,     \* "conc" | "seq"
           Keys,       \* key styles for scoped calls, subset of {"lent","owned"}
           ConcBodies, \* bodies of thread 1's call: subset of {"acc","none","panic","dbg"}
           Rounds,     \* every thread performs its call this many times (1 or 2): re-acquisition races
+          ConcCtors,  \* constructors of thread 1's collection: subset of {"try_new","new","from","from_iter","unchecked"}
           \* ---- family "seq": thread 1 runs every sequence of 1..SeqMaxLen items, thread 2 is a holder
           SeqColls,   \* collections (indices into SeqCollTab) the main thread calls
           SeqApis, SeqRels, SeqKeys, SeqBodies,
@@ -74,8 +75,11 @@ MkBody(sc, c, api, b, dc) ==
          <<[o |-> "op", pos |-> <<>>, m |-> "", name |-> "clear_poison", c |-> c],
            [o |-> "panic", pos |-> <<>>, m |-> "", name |-> "", c |-> 0]>>
 
-MkScen(css, pol, b1) ==
-  LET colls == [i \in 1..Len(css) |-> MkColl(css[i].kind, "try_new", css[i].slots)]
+\* thread 1's collection is built by constructor ct (arrangements are duplicate-free, so the unchecked
+\* constructors are legal); the others by try_new, so that differently constructed collections meet
+CtorFor(kind, ct) == IF kind = "ref" /\ ct = "from_iter" THEN "from" ELSE ct
+MkScen(css, pol, b1, ct) ==
+  LET colls == [i \in 1..Len(css) |-> MkColl(css[i].kind, IF i = 1 THEN CtorFor(css[i].kind, ct) ELSE "try_new", css[i].slots)]
       sc0   == [arena |-> Arena, colls |-> colls, progs |-> <<>>, policy |-> pol, faults |-> NoFaults]
       call(i) == Call(css[i].api, i, css[i].key, IF ApiScoped(css[i].api) THEN "scope" ELSE "drop",
                       MkBody(sc0, i, css[i].api, IF i = 1 THEN b1 ELSE "acc", i))
@@ -85,7 +89,7 @@ Combos == IF NT = 2 THEN {<<a, b>> : a \in CallSpecsA, b \in CallSpecsB}
           ELSE IF NT = 3 THEN {<<a, b, c>> : a \in CallSpecsA, b \in CallSpecsB, c \in CallSpecsB}
           ELSE {<<a, b, c, e>> : a \in CallSpecsA, b \in CallSpecsB, c \in CallSpecsB, e \in CallSpecsB}
 
-ConcScens == {MkScen(cb, pol, b) : cb \in Combos, pol \in Policies, b \in ConcBodies}
+ConcScens == {MkScen(cb, pol, b, ct) : cb \in Combos, pol \in Policies, b \in ConcBodies, ct \in ConcCtors}
 
 (***************************************************************************)
 (* Family "seq": a fixed menu of collections over the shared arena; the    *)
